@@ -649,6 +649,36 @@ def rule_OW6_serial(ctx, mod, E):
               'flag (default: not computed)', ctx.where(mod, fd))
 
 
+def rule_OW5_files(ctx, mod, E):
+    """Copies are independent of their original also in file-based mode: the
+    field files of a simulation must not be those of its copy.  Either the
+    file names carry something unique to the instance, or copy()/from_dict
+    gives the copy another file_dir."""
+    df = E.members['_data_or_file']
+    ps = set(au.params(df))
+    fs = [n for n in ast.walk(df) if isinstance(n, ast.JoinedStr)]
+    ctx.anchor(len(fs) == 1, 'file-name f-string in _data_or_file')
+    parts = {ast.unparse(v.value) for v in fs[0].values
+             if isinstance(v, ast.FormattedValue)}
+    unique = parts - ps
+    td, fd = E.members['to_dict'], E.members['from_dict']
+    keeps = has("{__: __, 'file_dir': self.file_dir}", td) or any(
+        isinstance(dn, ast.Dict) and any(
+            isinstance(k, ast.Constant) and k.value == 'file_dir' and
+            ast.unparse(v) == 'self.file_dir'
+            for k, v in zip(dn.keys, dn.values)) for dn in ast.walk(td))
+    rebased = any('file_dir' in ast.unparse(n) for n in ast.walk(fd)
+                  if isinstance(n, (ast.Assign, ast.Call)) and
+                  ('mkdtemp' in ast.unparse(n) or 'uuid' in ast.unparse(n)))
+    ctx.check('C12.OW5.files', 'file-based copy does not share field files',
+              bool(unique) or not keeps or rebased,
+              f'field files are named from {sorted(parts)} inside file_dir, '
+              'and to_dict/from_dict hand the same file_dir to the copy: the '
+              'copy reads, overwrites and (clean) deletes the files of its '
+              'original', ctx.where(mod, df),
+              sample={'name_parts': sorted(parts)})
+
+
 def rule_OW7(ctx, mod, E):
     """Two data variables must never share memory: a store
     `data[a] = data[b]` (no copy) makes later in-place `.loc[...] =` writes of
@@ -704,6 +734,7 @@ def run(ctx):
     rule_OW6(ctx, mod, E)
     rule_OW6_serial(ctx, mod, E)
     rule_OW7(ctx, mod, E)
+    rule_OW5_files(ctx, mod, E)
     # the transient hand-over attribute of to_file is consumed by to_dict
     # (a leftover makes every later copy()/to_dict(what) use the old `what`)
     from . import c17
